@@ -2,6 +2,7 @@
 
 import os
 import stat
+import warnings
 
 from hypothesis import strategies as st
 
@@ -34,9 +35,11 @@ ASSUMPTIONS = [
     "are ignored in the second compare's dirs_delete",
     "the old index is the workspace built with hashes (build_entries(compute_hash=True))",
     "the second compare uses a freshly constructed target (apply(update_meta=True) mutates the one it got)",
-    "unavailable sources are exercised with update_meta=False and link lists that do not start with symlink "
-    "(a symlink to a missing object is created dangling without an error; fs.info on a file that could not "
-    "be created raises out of apply(update_meta=True) after the callback was called)",
+    "unavailable sources are exercised with link lists that do not start with symlink (a symlink to a missing "
+    "object is created dangling without an error)",
+    "when a source is unavailable and apply() raises FileNotFoundError after having called the error callback "
+    "(it stats the destination again for update_meta=True and for the chmod of an isexec entry), only the "
+    "reporting clause is judged for that case: the statement promises the report, nothing about what follows",
     "nothing is asserted inside the subtree of an entry whose source is unavailable, nor (delete off) below "
     "a target file whose path is occupied by a non-empty prior directory",
     "files inside lazily loaded .dir objects carry no isexec flag and such objects hold no empty directories",
@@ -213,7 +216,9 @@ def _tree(draw, depth=0):
 
 
 TREE = _tree()
-SMALL_TREE = gen.trees(max_files=3, max_depth=2, content=gen.small_contents())
+with warnings.catch_warnings():  # gen.trees tests its `content` argument for truth
+    warnings.simplefilter("ignore")
+    SMALL_TREE = gen.trees(max_files=3, max_depth=2, content=gen.small_contents())
 EDIT = st.one_of(
     st.tuples(st.just("mod"), IDX, CONTENT),
     st.tuples(st.just("del"), IDX),
@@ -552,7 +557,7 @@ def run_case(case, ctx):  # noqa: C901, PLR0912, PLR0915
                 # is reported through the callback. apply() stats the destination of such an entry
                 # afterwards (update_meta / chmod of an isexec entry) and lets that error escape; the
                 # callback has been called by then, which is what is checked below.
-                if not expect_reported:
+                if not affected:
                     raise
                 raised = exc
                 classes.append("apply-raised-after-report")
@@ -564,7 +569,14 @@ def run_case(case, ctx):  # noqa: C901, PLR0912, PLR0915
             if reported and viols and not affected:
                 viols[0].msg += f"; error callback saw {[(a[1], repr(a[2])) for a in reported][:2]}"
             if not delete and raised is None:
-                after_files, _ad, _ax = walk(ws)
+                after_files, after_dirs, _ax = walk(ws)
+                for e in prior.sorted_dirs():
+                    if e in T.files or e in T.dirs or under(e, affected) or e in after_dirs:
+                        continue
+                    if any(e[:i] in T.files for i in range(1, len(e))):
+                        continue
+                    viols.append(Viol("delete-off:removed-outside-target",
+                                      f"prior directory {_rel(e)} is outside the target but was removed"))
                 for k in prior.sorted_files():
                     if k in T.files or k in T.dirs or under(k, affected):
                         continue
@@ -574,6 +586,15 @@ def run_case(case, ctx):  # noqa: C901, PLR0912, PLR0915
                         viols.append(Viol("delete-off:removed-outside-target",
                                           f"prior file {_rel(k)} is outside the target but was "
                                           f"{'removed' if k not in after_files else 'altered'}"))
+            if raised is None:
+                now_files, now_dirs, _nx = walk(ws)
+                for n in failed_dirs:
+                    # tests/index/test_checkout.py::test_checkout_broken_dir: a directory that failed to
+                    # load is excluded, not created empty
+                    if n and n not in prior.dirs and n not in prior.files and (n in now_dirs or n in now_files):
+                        viols.append(Viol("failed-dir-created",
+                                          f"{_rel(n)}: its .dir object is not in the cache, yet the "
+                                          f"path was created in the workspace"))
             for p in sorted(expect_reported - reported_paths):
                 kind = "dir" if p in {_join(ws, n) for n in failed_dirs} else "file"
                 viols.append(Viol(f"unreported-missing-source:{kind}",
